@@ -1355,6 +1355,54 @@ pub fn run_c16(tier: Tier) -> i32 {
         }
         s.quit();
     });
+    // real clock, the product's own poll rule, messages delivered while a long search is running:
+    // the time / nodes / depth reported within one search must still never decrease
+    let t0 = Instant::now();
+    let long_positions = ["position startpos moves e2e4 e7e5 g1f3 b8c6 f1c4 f8c5 c2c3 g8f6", "position fen r3k2r/p1ppqpb1/bn2pnp1/3PN3/1p2P3/2N2Q1p/PPPBBPPP/R3K2R w KQkq - 0 1"];
+    let msgs: Vec<(GateAction, &str)> = vec![(GateAction::PonderHit, "ponderhit"), (GateAction::IsReady, "isready"), (GateAction::Debug(true), "debug on"), (GateAction::NewGame, "ucinewgame")];
+    let long_gos = ["go ponder depth 6", "go depth 6", "go ponder wtime 600000 btime 600000 winc 1000 binc 1000 depth 6"];
+    let mut long_jobs: Vec<(usize, usize, usize)> = Vec::new();
+    for p in 0..long_positions.len() {
+        for m in 0..msgs.len() {
+            for g in 0..long_gos.len() {
+                if tier == Tier::Quick && (p + m + g) % 2 == 1 {
+                    continue;
+                }
+                long_jobs.push((p, m, g));
+            }
+        }
+    }
+    let polled = AtomicU64::new(0);
+    par_map_fine(&long_jobs, |&(p, m, g)| {
+        let pos_line = long_positions[p];
+        let toks: Vec<&str> = pos_line.split(' ').collect();
+        let mut root = if toks[1] == "startpos" { Pos::startpos() } else { Pos::from_fen(&toks[2..8].join(" ")).unwrap() };
+        if let Some(mi) = toks.iter().position(|t| *t == "moves") {
+            for u in &toks[mi + 1..] {
+                let mv = root.find_legal_uci(u).unwrap();
+                root = root.make(&mv);
+            }
+        }
+        let mut s = Session::new(false);
+        s.line(pos_line);
+        let msg = msgs[m].0.clone();
+        let out = run_go(&mut s, long_gos[g], Plan { poll: None, clock: Clock::Real, gates: vec![1] }, &move |kk| if kk == 1 { vec![msg.clone()] } else { vec![] });
+        s.quit();
+        n_searches.fetch_add(1, Ordering::Relaxed);
+        if !out.obs.parked_at.is_empty() {
+            polled.fetch_add(1, Ordering::Relaxed);
+        }
+        let ctx = json!({"real_clock": true, "product_poll_rule": true, "position": pos_line, "go": long_gos[g], "message_at_first_poll": msgs[m].1});
+        if let Some(pr) = &out.problem {
+            rep.report(format!("no_answer:{}", short(pr)), json!({"kind": "output", "context": ctx, "problem": pr}));
+            return;
+        }
+        c16_judge_search(&rep, &root, &out.obs.lines, &ctx, &n_lines);
+    });
+    if polled.load(Ordering::Relaxed) == 0 {
+        rep.machinery("vacuous: no long search reached its first real poll");
+    }
+    let long_secs = t0.elapsed().as_secs_f64();
     // the real binary: whole sessions over pipes, every line parsed, same invariants
     let bin_lines = c16_binary(&rep, &n_lines);
     let mut cov = Coverage::new();
@@ -1366,6 +1414,7 @@ pub fn run_c16(tier: Tier) -> i32 {
     cov.set("searches", json!(n_searches.load(Ordering::Relaxed)));
     cov.set("lines_parsed", json!(n_lines.load(Ordering::Relaxed)));
     cov.set("lines_from_the_real_binary", json!(bin_lines));
+    cov.set("long_searches_real_clock_real_polls_with_message_at_first_poll", json!({"runs": long_jobs.len(), "reached_a_poll": polled.load(Ordering::Relaxed), "secs": long_secs}));
     cov.samples = vec![json!({"session": ["position startpos moves e2e4 e7e5; go depth 3", "position startpos moves e2e4 e7e5 g1f3; go depth 2"], "lines_judged": "every line produced by the real ConsoleUciTx"})];
     cov.assumptions = vec!["stdout is line-atomic; the in-process lines come from the real ConsoleUciTx with a capturing closure".into()];
     finish(&rep, tier, cov, started)
